@@ -200,6 +200,12 @@ def pt_post(prop):
             I.oblige('only_SystemExit_escapes', z3.BoolVal(v.cls == 'SystemExit' and bool(exitstep)), detail='escaping %s' % v.cls)
             return
         cover(I, 'return')
+        if prop == 'C08' and 'EXIT_CODE' in g:
+            # from the property: an exit code carried by SystemExit propagates to the caller of run(); processTask returned normally,
+            # so the SystemExit of the generator step was absorbed: allowed only for SystemExit(None)
+            I.oblige('exit_code_of_the_generator_step_propagates', core.any_is_none(g['EXIT_CODE'].t),
+                     detail='a generator step raised SystemExit(code), code not None, but processTask returned normally: the code is lost '
+                            '(stop() has no effect on a manager that is not running any more)')
         val = I.field(event, 'value')
         wh0 = z3.Select(ctx['pre']['waitingHandlers'][0], event.t)
         wh = I.fz(event, 'waitingHandlers')
@@ -343,7 +349,8 @@ SPECS.append(pt_spec('C05', 'processTask: the generator step runs with _currentl
 # ============================================================================= closures of Manager.waitEvent (C06)
 # captured variables of the enclosing waitEvent call are explicit ghost parameters (spec.env)
 W_FIELDS = dict(T_FIELDS)
-W_FIELDS.update({'st_event': Ref, 'flag': Bool, 'run': Bool, 'timeout': Int, 'tick_handler': Ref, 'alert_done': Bool})
+W_FIELDS.update({'st_event': Ref, 'flag': Bool, 'run': Bool, 'timeout': Int, 'tick_handler': Ref, 'alert_done': Bool,
+                 'tick_installed': Bool})   # ghost: the temporary generate_events handler of this waiter is in the handler table
 W_ALIAS = dict(T_ALIAS)
 W_ALIAS.update({('State', 'event'): 'st_event'})
 
@@ -360,7 +367,19 @@ def w_objs(I):
     I.st.inputs['state.run'] = I.fz(state, 'run')
     I.st.inputs['state.flag'] = I.fz(state, 'flag')
     I.st.inputs['state.timeout'] = I.fz(state, 'timeout')
+    I.st.inputs['tick_handler_installed'] = I.fz(state, 'tick_installed')
+    # protocol invariant of one waitEvent call (established by its first segment, which installs the tick handler iff timeout >= 0;
+    # preserved by _on_tick, which only counts down to 0 and removes the handler when it fires the TimeoutError):
+    I.assume(z3.Implies(I.fz(state, 'tick_installed'), z3.And(I.fz(state, 'timeout') >= 0, I.field(state, 'tick_handler').t == g['_on_tick_handler'].t)),
+             'WInv: an installed tick handler means a timeout >= 0 is being counted')
     return self, state
+
+
+def tick_installed_after(I, pre):
+    """ghost update: the tick handler stays installed unless this call removed it"""
+    state = I.st.ghost['STATE']
+    removed = any(isinstance(r[0], VRef) and not I.st.feasible(r[0].t != I.st.ghost['_on_tick_handler'].t) for r in log(I, 'REMOVED'))
+    return z3.And(z3.Select(pre['tick_installed'][0], state.t), z3.BoolVal(not removed))
 
 
 W_ENV = {'state': lambda I: I.st.ghost['STATE'], 'event_object': lambda I: lib.unopt(I, I.st.ghost['EVENT_OBJECT']) if False else I.st.ghost['EVENT_OBJECT'],
@@ -394,6 +413,8 @@ def w_no_escape(I, outcome):
 def wd_setup(I):
     self, state = w_objs(I)
     event = obj(I, 'event', 'Event')       # the <name>_done event; event.parent is the event that is done
+    # _on_done is running, so its own temporary handler is still installed, so _on_tick has not fired the timeout (it removes both):
+    I.assume(z3.Implies(I.fz(state, 'timeout') >= 0, I.fz(state, 'tick_installed')), 'WInv: no timeout fired yet => the countdown handler is installed')
     return {'self': self, 'event': event, 'args': VTuple([]), 'kwargs': VCDict({})}
 
 
@@ -417,8 +438,14 @@ def wd_post(I, outcome, ctx):
                                                                 t.items[2].t == I.field(state, 'st_parent').t))
         I.oblige('flag_set', I.fz(state, 'flag'))
     I.oblige('foreign_done_changes_nothing', z3.Implies(z3.Not(mine), z3.And(I.fz(state, 'flag') == z3.Select(pre['flag'][0], state.t), z3.BoolVal(len(rem) == 0))))
-    t0 = z3.Select(pre['timeout'][0], state.t)
-    I.oblige('tick_handler_removed_iff_a_timeout_is_running', z3.Implies(mine, z3.BoolVal(len(rem) == 1) == (t0 > 0)))
+    ti0 = z3.Select(pre['tick_installed'][0], state.t)
+    # from the property ("resumed exactly once ... either with the result or with TimeoutError", "no temporary handlers remain"):
+    # once the caller is rescheduled with the result, the countdown handler must be gone, otherwise a TimeoutError task follows
+    I.oblige('resumption_with_the_result_cancels_the_timeout', z3.Implies(mine, z3.Not(tick_installed_after(I, pre))),
+             detail='after the done event resumed the caller the temporary generate_events handler must not stay installed '
+                    '(it would throw TimeoutError into a caller that was already resumed, at countdown 0)')
+    I.oblige('tick_handler_removed_only_if_installed', z3.Implies(z3.BoolVal(len(rem) >= 1), ti0),
+             detail='removeHandler of a handler that is not installed raises KeyError')
     for r in rem:
         I.oblige('removes_its_own_tick_handler', z3.And(r[0].t == I.field(state, 'tick_handler').t, r[1].t == z3.StringVal('generate_events')))
 
@@ -469,6 +496,9 @@ SPECS.append(FucSpec(
 # --- _on_tick
 def wt_setup(I):
     self, state = w_objs(I)
+    # _on_tick is running, so it is installed; WInv (proved for _on_done): an installed countdown means the caller was not resumed yet
+    I.assume(I.fz(state, 'tick_installed'), 'the running handler is installed')
+    I.assume(z3.Not(I.fz(state, 'flag')), 'WInv: installed countdown => caller not yet resumed (ensured by _on_done)')
     return {'self': self}
 
 
@@ -483,6 +513,8 @@ def wt_post(I, outcome, ctx):
     regs, rem = log(I, 'REGISTERED'), log(I, 'REMOVED')
     I.oblige('timeout_error_exactly_at_zero', z3.BoolVal(len(regs) == 1) == (t0 == 0), detail='TimeoutError no earlier than after the given number of loop iterations')
     I.oblige('countdown_one_per_tick', z3.Implies(t0 > 0, I.fz(state, 'timeout') == t0 - 1))
+    I.oblige('WInv_preserved', z3.Implies(tick_installed_after(I, pre), z3.And(I.fz(state, 'timeout') >= 0, z3.Not(I.fz(state, 'flag')))))
+    I.oblige('timed_out_waiter_keeps_no_countdown', z3.Implies(t0 == 0, z3.Not(tick_installed_after(I, pre))))
     I.oblige('no_timeout_means_no_countdown', z3.Implies(t0 < 0, z3.And(I.fz(state, 'timeout') == t0, z3.BoolVal(len(regs) == 0 and len(rem) == 0))))
     if regs:
         cover(I, 'timed_out')
